@@ -50,6 +50,12 @@ def props_files(prop):
     import glob
     d = os.path.join(VERIF, 'coq', 'theories', 'Props')
     found = sorted(glob.glob(os.path.join(d, prop + '.v')) + glob.glob(os.path.join(d, prop + '[a-z]*.v')))
+    try:
+        import corr as _corr
+        found += [os.path.join(d, f) for f, ps in sorted(_corr.SHARED_PROPS.items())
+                  if prop in ps and os.path.exists(os.path.join(d, f))]
+    except Exception:      # noqa
+        pass
     # only files that are part of the development (listed in _CoqProject):
     # a file still being written is not an obligation yet
     try:
@@ -150,7 +156,7 @@ def main():
     build = corr.build_all()
     # 2. proof obligations of this property
     tfail = getattr(build, 'translator_failures', {}) or {}
-    skip_props = {corr.GEN_PROPS[st][1] for st in tfail if st in corr.GEN_PROPS and corr.GEN_PROPS[st][0] == prop}
+    skip_props = {corr.GEN_PROPS[st][1] for st in tfail if st in corr.GEN_PROPS and prop in corr.GEN_PROPS[st][0]}
     proofs = check_props(prop, corr, skip=skip_props)
     # 3. correspondence
     corr_results = []
@@ -236,7 +242,7 @@ def main():
                       'model is tied by the correspondence check only'
                       % (', '.join(sorted(skip_props)),
                          '; '.join('%s: %s' % (k, v) for k, v in tfail.items()
-                                   if k in corr.GEN_PROPS and corr.GEN_PROPS[k][0] == prop)))
+                                   if k in corr.GEN_PROPS and prop in corr.GEN_PROPS[k][0])))
         lines.append('NOTE: ' + build_note)
     if not build.ok:
         # Which build failures leave THIS property unfounded:
@@ -293,6 +299,17 @@ def main():
         extended = classifiers.extended_search(prop, corr_fail, oracle_mods, tier)
         for f in extended.failures:
             if classifiers.match_known(f, known) is None:
+                unlisted.append(f)
+    if broken and not unlisted and corr_fail:
+        # C18 / C20 / the line-column clause of C13 ARE statements of the form
+        # "behaves like the reference (a plain list / a list with an index /
+        # the line and column of the offset)", and the model is proved to be
+        # that reference (C18_refines, C20_refines, clo_correct): a history on
+        # which the implementation differs from the model is a history on
+        # which the property fails.
+        refines = {'C18': 'K-args', 'C20': 'K-buf', 'C13': 'K-clo'}
+        for f in corr_fail:
+            if refines.get(prop) and str(f.kind).startswith(refines[prop]):
                 unlisted.append(f)
     if unlisted:
         # group by kind; one VIOLATION line per kind, smallest input as replay
